@@ -863,7 +863,7 @@ def _build_sense(
 
 
 def _build_example(example: Example) -> ET.Element:
-    elem = ET.Element('Example')
+    elem = ET.Element('Example', attrib=_meta_dict(example.get('meta')))
     elem.text = example['text']
     if example.get('language'):
         elem.set('language', example['language'])
